@@ -581,6 +581,9 @@ class Exec(object):
                 if f.id == 'regexps': return ('typed', REGEXP, lambda x: BoolVal(True))
         v = self.ev(p, e)
         if isinstance(v, Gen): raise Unsupported('iteration over a generator')
+        if v.t.kind == 'opt' and v.t.args[0].kind == 'set':       # iterating over None is a TypeError
+            self.partial_op(p, 'iterate', parts(v.t)[5](v.z), getattr(e, 'lineno', 0))
+            v = SV(v.t.args[0], parts(v.t)[3](v.z))
         if v.t.kind == 'set': return ('set', v)
         if v.t.kind == 'list' and self.in_comprehension and str(v.z) in self.elem_sets: return ('set', self.elem_sets[str(v.z)])
         if v.t.kind == 'list': return ('list', v)
@@ -775,6 +778,13 @@ class Exec(object):
                 raise Unsupported('call of %s (line %d)' % (f.attr, e.lineno))
             if isinstance(f.value, ast.Name) and f.value.id == 'self':
                 c = self.reg.find_method(self.c, f.attr)
+                if c is not None and self.spec_mode:
+                    # in a specification, self.m(args) for a pure method under contract denotes its result (the function symbol used at call sites)
+                    args = [self.lookup(p, 'self')] + [self.ev(p, a) for a in e.args]
+                    ok = [k for k in c if k.pure and len(k.params) == len(args) and all(a.t == k.param_types[n] for a, n in zip(args, k.params))]
+                    if len(ok) != 1: raise Unsupported('spec call of method %s' % f.attr)
+                    fn = ok[0].result_fn(','.join(a.t.key for a in args), [sort_of(a.t) for a in args])
+                    return SV(ok[0].result_type, fn(*[a.z for a in args]))
                 if c is not None: return self.call_contract(p, c, e, self_arg=self.lookup(p, 'self'), self_expr=f.value)
             return self.method(p, f, e)
         raise Unsupported('call form')
@@ -1190,6 +1200,9 @@ class Exec(object):
             pos_vals = [self.ev(p, a) if not self.is_empty_literal(a) else None for a in e.args]
             off = 1 if self_arg is not None else 0
             ok = [c for c in cs if all(v is None or isinstance(v, Gen) or v.t == c.param_types[list(c.params)[i + off]] or self.coercible(v.t, c.param_types[list(c.params)[i + off]]) for i, v in enumerate(pos_vals))]
+            if len(ok) > 1:       # an omitted argument selects the variant that has a default for it
+                given = set(list(ok[0].params)[off:off + len(pos_vals)]) | {kw.arg for kw in e.keywords} | ({list(ok[0].params)[0]} if off else set())
+                ok = [c for c in ok if all(n in given or n in c.defaults for n in c.params)] or ok
             if len(ok) != 1: raise Unsupported('cannot select a contract variant of %s' % cs[0].qualname)
             c = ok[0]
         else:
@@ -1441,7 +1454,7 @@ class Exec(object):
         the disjunct that justifies it)"""
         src = self.c.raises
         if site is not None and site in self.c.raise_witness: src = self.c.raises_parts[self.c.raise_witness[site]]
-        return self.truth(self.ev_spec_in(p, src, dict(p.old)))
+        return self.truth(self.ev_spec_in(p, src, dict(p.old), ghost=dict(p.ghost)))
 
     def s_Raise(self, p, st):
         if self.c.raises is not None:       # the function may raise, exactly when its `raises` condition holds on entry
@@ -1496,7 +1509,7 @@ class Exec(object):
         if rt is not None: v = self.coerce(v, rt)
         if self.c.raises is not None:
             for k_, part in enumerate(self.c.raises_parts):
-                self.oblig(p, 'return-only-if-not-raises#%d@%d' % (k_ + 1, line), 'post', Not(self.truth(self.ev_spec_in(p, part, dict(p.old)))), line)
+                self.oblig(p, 'return-only-if-not-raises#%d@%d' % (k_ + 1, line), 'post', Not(self.truth(self.ev_spec_in(p, part, dict(p.old), ghost=dict(p.ghost)))), line)
         saved_res, saved_mode = self.result, self.spec_mode
         self.result, self.spec_mode = v, True
         try:
